@@ -40,6 +40,8 @@ CONSTANTS
   Planned,     \* TRUE (generators): fault / crash positions are drawn when the operation begins, so that
                \* random simulation spreads them uniformly over the calls; FALSE: any call may fail
   MaxPlan,     \* largest planned position
+  InitStores,  \* set of initial ledgers (each a function Rev -> record)
+  LogSched,    \* TRUE: hist also records which process took every step (schedule export, C09)
   KeepLog      \* TRUE: keep the per-operation call log (needed by the ordering properties)
 
 VARIABLES store, cluster, pc, op, nops, nfaults, ncrash, nedits, last, pre, hist, kfg
@@ -261,7 +263,7 @@ Go(p, t) ==
   /\ pc' = [pc EXCEPT ![p] = r.pc]
   /\ op' = [op EXCEPT ![p] = [r.op EXCEPT !.n = op[p].n + 1,
                                           !.log = IF KeepLog THEN Append(@, last') ELSE @]]
-  /\ UNCHANGED hist
+  /\ hist' = IF LogSched THEN Append(hist, [step |-> "c", p |-> p]) ELSE hist
 
 \* same, and the fault plan hit this call (class cls)
 GoF(p, t, cls) ==
@@ -822,7 +824,8 @@ End(p) ==
   /\ last' = Lab(p, "end", op[p].u.kind, "", "", op[p].result = "ok", FALSE)
   /\ pre' = [pre EXCEPT ![p] = [store |-> <<>>, cluster |-> <<>>]]
   /\ kfg' = kfg \cup op[p].kf
-  /\ UNCHANGED <<store, cluster, nops, nfaults, ncrash, nedits, hist>>
+  /\ hist' = IF LogSched THEN Append(hist, [step |-> "e", p |-> p]) ELSE hist
+  /\ UNCHANGED <<store, cluster, nops, nfaults, ncrash, nedits>>
 
 \* the process dies before its next call; nothing it did afterwards can reach shared state
 Crash(p) ==
@@ -870,7 +873,7 @@ Next == \/ \E p \in Procs : Begin(p) \/ End(p) \/ Crash(p) \/ (~MustCrash(p) /\ 
         \/ Edit
 
 Init ==
-  /\ store = [r \in Rev |-> NoRec]
+  /\ store \in InitStores
   /\ cluster \in PreMenu
   /\ pc = [p \in Procs |-> "idle"]
   /\ op = [p \in Procs |-> NoOp]
@@ -878,7 +881,7 @@ Init ==
   /\ nfaults = 0 /\ ncrash = 0 /\ nedits = 0
   /\ last = Lab(0, "init", "", "", "", TRUE, FALSE)
   /\ pre = [p \in Procs |-> [store |-> <<>>, cluster |-> <<>>]]
-  /\ hist = <<[step |-> "init", cluster |-> cluster]>>
+  /\ hist = <<[step |-> "init", cluster |-> cluster, store |-> [r \in Rev |-> store[r].ch]]>>
   /\ kfg = {}
 
 Spec == Init /\ [][Next]_vars
